@@ -97,6 +97,49 @@ theorem DrewV.trans {a b c : St} {ns ms : List String} (d1 : DrewV a b ns) (d2 :
       · exact Or.inl h
       · exact Or.inr (Or.inr h)
 
+/-- the same for instruction ids -/
+structure DrewI (st st1 : St) (ns : List String) : Prop where
+  nodup : ns.Nodup
+  fresh : ∀ n ∈ ns, n ∉ st.ing.existing
+  mem : ∀ x, x ∈ st1.ing.existing ↔ x ∈ ns ∨ x ∈ st.ing.existing
+
+theorem DrewI.nil (st : St) : DrewI st st [] := ⟨List.nodup_nil, by simp, by simp⟩
+
+theorem DrewI.ofVar {st st1 : St} {b n : String} (h : st.var b = .ok (n, st1)) : DrewI st st1 [] := by
+  obtain ⟨g', _, rfl⟩ := St.var_ok h
+  exact ⟨List.nodup_nil, by simp, by simp⟩
+
+theorem DrewI.ofInsnId {st st1 : St} {b n : String} (h : st.insnId b = .ok (n, st1)) : DrewI st st1 [n] := by
+  obtain ⟨g', hg, rfl⟩ := St.insnId_ok h
+  obtain ⟨hf, he⟩ := gen_fresh _ _ _ _ hg
+  exact ⟨by simp, by simpa using hf, by intro x; show x ∈ g'.existing ↔ _; rw [he]; simp⟩
+
+theorem DrewI.trans {a b c : St} {ns ms : List String} (d1 : DrewI a b ns) (d2 : DrewI b c ms) :
+    DrewI a c (ns ++ ms) := by
+  refine ⟨?_, ?_, ?_⟩
+  · refine List.nodup_append.2 ⟨d1.nodup, d2.nodup, fun x hx y hy e => ?_⟩
+    subst e
+    exact d2.fresh x hy ((d1.mem x).2 (Or.inl hx))
+  · intro n hn
+    rcases List.mem_append.1 hn with h | h
+    · exact d1.fresh n h
+    · exact fun hx => d2.fresh n h ((d1.mem n).2 (Or.inr hx))
+  · intro x
+    rw [d2.mem, d1.mem, List.mem_append]
+    constructor
+    · rintro (h | h | h)
+      · exact Or.inl (Or.inr h)
+      · exact Or.inl (Or.inl h)
+      · exact Or.inr h
+    · rintro ((h | h) | h)
+      · exact Or.inr (Or.inl h)
+      · exact Or.inl h
+      · exact Or.inr (Or.inr h)
+
+namespace RL
+def ids (r : RL) : List String := [r.il, r.iu]
+end RL
+
 /-! ## hoisting the bounds -/
 
 theorem hoistBounds_inv (ns : List (String × Impl)) (uniq : List (String × String)) (e : SExpr) :
@@ -107,11 +150,12 @@ theorem hoistBounds_inv (ns : List (String × Impl)) (uniq : List (String × Str
         (∃ l h, c.2.2.1 = .int l ∧ c.2.2.2 = .int h)) →
       hoistBounds ns uniq e false rvs st = .ok (hs, nb, st') →
       ∃ ls : List RL, ls.map RL.sem = ch ∧ (∀ r ∈ ls, lookupStr uniq r.v = some r.u) ∧
-        hs = ls.flatMap RL.hs ∧ nb = ls.map RL.nb ∧ DrewV st st' (ls.flatMap RL.temps)
+        hs = ls.flatMap RL.hs ∧ nb = ls.map RL.nb ∧ DrewV st st' (ls.flatMap RL.temps) ∧
+        DrewI st st' (ls.flatMap RL.ids)
   | [], [], st, st', hs, nb, _, _, _, h => by
     simp only [hoistBounds, Res.ok.injEq, Prod.mk.injEq] at h
     obtain ⟨rfl, rfl, rfl⟩ := h
-    exact ⟨[], rfl, by simp, rfl, rfl, DrewV.nil _⟩
+    exact ⟨[], rfl, by simp, rfl, rfl, DrewV.nil _, DrewI.nil _⟩
   | [], _ :: _, _, _, _, _, hn, _, _, _ => by simp at hn
   | _ :: _, [], _, _, _, _, hn, _, _, _ => by simp at hn
   | c :: cs, rv :: rvs, st, st', hs, nb, hn, hfl, hch, h => by
@@ -141,10 +185,10 @@ theorem hoistBounds_inv (ns : List (String × Impl)) (uniq : List (String × Str
     obtain ⟨hs', nb', st''⟩ := rr
     simp only [Res.ok.injEq, Prod.mk.injEq] at h
     obtain ⟨rfl, rfl, rfl⟩ := h
-    obtain ⟨ls, hls, hlu, rfl, rfl, hd⟩ := hoistBounds_inv ns uniq e cs rvs sd st'' hs' nb' hn'
+    obtain ⟨ls, hls, hlu, rfl, rfl, hd, hdi⟩ := hoistBounds_inv ns uniq e cs rvs sd st'' hs' nb' hn'
       (fun rv' h' => hfl rv' (List.mem_cons_of_mem _ h')) (fun c' h' => hch c' (List.mem_cons_of_mem _ h')) hrr
     refine ⟨{ op := op, v := v, u := u, l := l, h := hh, tl := tl, il := il, tu := tu, iu := iu } :: ls,
-      by simp [RL.sem, hls], ?_, by simp [RL.hs, hname], by simp [RL.nb, hname], ?_⟩
+      by simp [RL.sem, hls], ?_, by simp [RL.hs], by simp [RL.nb], ?_, ?_⟩
     · intro r hr
       rcases List.mem_cons.1 hr with rfl | hr
       · exact hu
@@ -152,6 +196,9 @@ theorem hoistBounds_inv (ns : List (String × Impl)) (uniq : List (String × Str
     · have d := (((St.var_drew ht1).toV.trans (DrewV.ofInsnId hi1)).trans
         ((St.var_drew ht2).toV.trans (DrewV.ofInsnId hi2))).trans hd
       simpa [RL.temps] using d
+    · have d := (((DrewI.ofVar ht1).trans (DrewI.ofInsnId hi1)).trans
+        ((DrewI.ofVar ht2).trans (DrewI.ofInsnId hi2))).trans hdi
+      simpa [RL.ids] using d
 
 /-! ## the bounds of a chain's variables -/
 
@@ -251,6 +298,8 @@ theorem ilStore_invR {shape : Shape} {e body : SExpr} {ch : List Level} {tag : N
       tempName st tag = .ok (name, st2) ∧
       St.vars st2 (dimNames name shape.length) = .ok (inames, st3) ∧
       ls.map RL.sem = ch ∧ uniq = ls.map RL.pair ∧ DrewV st3 st3' (ls.flatMap RL.temps) ∧
+      DrewI st3 st3' (ls.flatMap RL.ids) ∧
+      deps = bd ++ genDeps (ns ++ tempNs ls) [] (mkChain (ls.map RL.renamed) (renameRed uniq body)) ∧
       (∀ r ∈ ls, r.u ∉ ch.map (·.2.1) ∧ lookupNs ns r.u = none ∧ lookupNs ns r.tl = none ∧ lookupNs ns r.tu = none) ∧
       gen ns (ls.map (·.u)).reverse (renameRed uniq body) = some b' ∧
       st3'.insnId (name ++ "_store") = .ok (id, st4) ∧ r = .stored name [id] ∧
@@ -279,7 +328,7 @@ theorem ilStore_invR {shape : Shape} {e body : SExpr} {ch : List Level} {tag : N
       have hm : c.2.1 ∈ ch.map (·.2.1) := List.mem_map.2 ⟨c, hc, rfl⟩
       simp only [List.contains_eq_mem, decide_eq_false_iff_not] at this
       exact absurd hm this
-  obtain ⟨ls, hls, hlu, rfl, rfl, hd⟩ := hoistBounds_inv ns uniq e ch rvars st3 st3' hs nb hrv hfl hch hhb
+  obtain ⟨ls, hls, hlu, rfl, rfl, hd, hdi⟩ := hoistBounds_inv ns uniq e ch rvars st3 st3' hs nb hrv hfl hch hhb
   have hvs : ls.map (·.v) = ch.map (·.2.1) := by
     rw [← hls]; simp [RL.sem]
   have hndv : (ls.map (·.v)).Nodup := by rw [hvs]; exact hnd
@@ -349,8 +398,8 @@ theorem ilStore_invR {shape : Shape} {e body : SExpr} {ch : List Level} {tag : N
       simpa [RL.pair] using this
     have hbrk' : ranksOKS rk (uniq.map (·.1)) body = true := by rw [huq]; exact hbrk
     rw [gen_append ns (tempNs ls) rk uniq n hfound body _ hin hbok hbrk'] at hb1
-    exact ⟨name, st2, inames, st3, ls, st3', b', id, st4, _, hnm, hins, hls, huniq, hd, hgu, hb1, hid, rfl,
-      by rw [hb2]⟩
+    exact ⟨name, st2, inames, st3, ls, st3', b', id, st4, _, hnm, hins, hls, huniq, hd, hdi, rfl, hgu, hb1, hid, rfl,
+      by rw [hb2]; rfl⟩
 
 end LG
 end Pt
